@@ -86,9 +86,9 @@ Fixpoint count_occ_N (c : N) (s : str) : nat :=
   end.
 
 (* _parse_directive_options: (lines of the remaining content - always a suffix of
-   content.splitlines() -, raw option block) *)
+   content.split_lines() -, raw option block) *)
 Definition parse_directive_options (content : str) : list str * option str :=
-  let content_lines := splitlines content in
+  let content_lines := split_lines content in
   if startswith content dashes3 then
     let content_lines := tl content_lines in
     let content1 := join nl content_lines in
@@ -119,8 +119,8 @@ Definition parse_directive_text (cls : dclass) (first_line content : str) : res 
   let '(body0, off0, ob) :=
     if d_optspec cls then
       let '(bl, ob) := parse_directive_options content in
-      (bl, (length (splitlines content) - length bl)%nat, ob)
-    else (splitlines content, O, None) in
+      (bl, (length (split_lines content) - length bl)%nat, ob)
+    else (split_lines content, O, None) in
   let has_opts := match ob with Some _ => true | None => false end in
   do r1 <-
     (if (d_req cls =? 0)%nat && (d_opt cls =? 0)%nat then
@@ -230,6 +230,6 @@ Fixpoint nested_calls (w : wrapper) (X : list str) (pos : nat)
       | Some (_, _, ln) => do c2 <- nested_calls i X (S ln); Ok (c ++ c2)
       | None => Raise AssertionError
       end
-  | Include _ => Ok [(false, join nl (splitlines (unlines X)), 1%nat)]
+  | Include _ => Ok [(false, join nl (split_lines (unlines X)), 1%nat)]
   | Subst _ => Ok [(false, join nl X, pos)]
   end.
